@@ -495,7 +495,9 @@ func (e *Exec) checkFrame(st *State, key string, ref Term, idx Term, isElem bool
 	if e.noFrame || e.contract == nil || e.depth < 0 {
 		return
 	}
-	allowed := []Term{Ge(ref, e.alloc0)}
+	// a location of the nil object does not exist (a real store through nil is a nil# obligation of its own): modifies
+	// entries such as x.iter.(*T).f with x.iter == nil denote nothing
+	allowed := []Term{Ge(ref, e.alloc0), Eq(ref, IntLit(0))}
 	if !isElem && e.declared["eref"] {
 		// a field of an element of a slice of structs whose backing array was allocated by this call
 		allowed = append(allowed, And(Lt(ref, IntLit(0)), Ge(mk(SInt, "einv1", ref), e.alloc0)))
